@@ -28,8 +28,8 @@ RULES = {
     "R5": "one resolution order for names (shared rule S2): every scan of the deserializer's scope stack lets the innermost "
     "binding win, so the value a sharding reference resolves to is the value the node's own input of that name resolves "
     "to - otherwise a (malformed) model with a shadowed name yields an IR whose reference links disagree",
-    "R6": "stable emission: a field whose presence alone makes the serializer emit a value_info entry (the conjuncts of the "
-    "emission predicate) is stored by serialize_value_into unconditionally or through a writer without a skip path that "
+    "R6": "stable emission: a field whose presence alone makes the serializer emit a value_info entry (found by evaluating the "
+    "emission predicate - guard clauses or one expression - with that field and the always-required ones set and every other unset) is stored by serialize_value_into unconditionally or through a writer without a skip path that "
     "ignores the data - otherwise the entry carries only a name, deserializes to a value without information and is dropped "
     "by the next serialization, so the serialized form is not a fixed point",
     "R7": "fixed point of function value information below IR version 10 (shared rule S9): the parser of the composite names the serializer builds "
@@ -361,6 +361,81 @@ def rule_r4(ctx):
     ctx.require(n >= 5, f"only {n} owned-value arguments of Graph constructors found in the deserializer")
 
 
+def _boolean_valued(e) -> bool:
+    """A constant True/False, or an expression built from comparisons, not, and/or and bool(...)."""
+    if e is None:
+        return False
+    if isinstance(e, ast.Constant):
+        return isinstance(e.value, bool)
+    if isinstance(e, ast.Compare):
+        return True
+    if isinstance(e, ast.UnaryOp) and isinstance(e.op, ast.Not):
+        return True
+    if isinstance(e, ast.BoolOp):
+        return all(_boolean_valued(v) for v in e.values)
+    if isinstance(e, ast.Call) and dotted_of(e.func) == "bool":
+        return True
+    return False
+
+
+def _truth(e, p0: str, env: dict):
+    """Three-valued truth of a test over the fields of `p0`, each field either set (truthy, not None) or unset: True / False / None."""
+    if isinstance(e, ast.Constant):
+        return bool(e.value)
+    if isinstance(e, ast.Attribute) and isinstance(e.value, ast.Name) and e.value.id == p0:
+        return env.get(e.attr)
+    if isinstance(e, ast.Name):
+        return env.get("$" + e.id)
+    if isinstance(e, ast.UnaryOp) and isinstance(e.op, ast.Not):
+        t = _truth(e.operand, p0, env)
+        return None if t is None else not t
+    if isinstance(e, ast.BoolOp):
+        vals = [_truth(v, p0, env) for v in e.values]
+        if isinstance(e.op, ast.And):
+            return False if any(v is False for v in vals) else (None if any(v is None for v in vals) else True)
+        return True if any(v is True for v in vals) else (None if any(v is None for v in vals) else False)
+    if isinstance(e, ast.Call) and dotted_of(e.func) in ("bool", "len") and len(e.args) == 1:
+        return _truth(e.args[0], p0, env)
+    if isinstance(e, ast.Compare) and len(e.ops) == 1:
+        l, r, op = e.left, e.comparators[0], e.ops[0]
+        if isinstance(r, ast.Constant) and r.value is None and isinstance(op, (ast.Is, ast.IsNot, ast.Eq, ast.NotEq)):
+            t = _truth(l, p0, env)
+            return None if t is None else (t if isinstance(op, (ast.IsNot, ast.NotEq)) else not t)
+        if isinstance(r, ast.Constant) and r.value in (0, "", ()) and not isinstance(r.value, bool):
+            t = _truth(l, p0, env)
+            if t is not None and isinstance(op, (ast.Gt, ast.NotEq)):
+                return t
+            if t is not None and isinstance(op, ast.Eq):
+                return not t
+    return None
+
+
+def _answers(stmts, p0: str, env: dict) -> set:
+    """Possible answers {True, False, None} of a predicate body under the field assignment (None: not decided by this reading)."""
+    for i, st in enumerate(stmts):
+        if isinstance(st, ast.Return):
+            return {_truth(st.value, p0, env) if st.value is not None else None}
+        if isinstance(st, ast.If):
+            t = _truth(st.test, p0, env)
+            rest = list(stmts[i + 1:])
+            out = set()
+            if t is not False:
+                out |= _answers(list(st.body) + rest, p0, env)
+            if t is not True:
+                out |= _answers(list(st.orelse) + rest, p0, env)
+            return out
+        if isinstance(st, (ast.Expr, ast.Pass)):
+            continue
+        if isinstance(st, (ast.Assign, ast.AnnAssign)) and getattr(st, "value", None) is not None:
+            tg = st.targets if isinstance(st, ast.Assign) else [st.target]
+            if all(isinstance(t, ast.Name) for t in tg):
+                # a local: read later as the truth of what it was bound to
+                env = {**env, **{"$" + t.id: _truth(st.value, p0, env) for t in tg}}
+                continue
+        return {None}
+    return {None}
+
+
 def _emission_predicates(ctx):
     """Boolean one-parameter functions of serde used as the test that decides whether a value_info entry is written."""
     m = ctx.repo.modules[SERDE]
@@ -369,7 +444,7 @@ def _emission_predicates(ctx):
         if isinstance(g.node, ast.Lambda) or len(g.params) != 1:
             continue
         rets = [r for r in own_nodes(g.node) if isinstance(r, ast.Return)]
-        if not rets or not all(isinstance(r.value, ast.Constant) and isinstance(r.value.value, bool) for r in rets):
+        if not rets or not all(_boolean_valued(r.value) for r in rets):
             continue
         used = 0
         for f in m.all_funcs:
@@ -425,16 +500,25 @@ def rule_r6(ctx):
     for g in preds:
         p0 = g.params[0]
         # the conjunction that answers False: fields whose absence is required for "nothing to emit"
+        # fields that alone justify an entry: the predicate answers True for a value that has this field and the fields it
+        # always requires (the name), and nothing else - whatever way the predicate is written (guard clauses, one expression)
+        mentioned: dict[str, ast.AST] = {}
+        for x in own_nodes(g.node):
+            if isinstance(x, ast.Attribute) and isinstance(x.value, ast.Name) and x.value.id == p0 and isinstance(x.ctx, ast.Load) \
+                    and not isinstance(getattr(x, "_parent", None), ast.Call):
+                mentioned.setdefault(x.attr, x)
+            elif isinstance(x, ast.Attribute) and isinstance(x.value, ast.Name) and x.value.id == p0 and isinstance(getattr(x, "_parent", None), ast.Call) \
+                    and dotted_of(getattr(x, "_parent").func) in ("bool", "len"):
+                mentioned.setdefault(x.attr, x)
+        body = [st for st in g.node.body if not (isinstance(st, ast.Expr) and isinstance(st.value, ast.Constant))]
+        everything = {k: True for k in mentioned}
+        ctx.require(_answers(body, p0, everything) == {True}, f"{g.local}: the predicate does not answer True for a value with every field set (reading of the predicate failed)")
+        required = {k for k in mentioned if _answers(body, p0, {**everything, k: False}) == {False}}
         fields: dict[str, ast.AST] = {}
-        for i in (x for x in own_nodes(g.node) if isinstance(x, ast.If)):
-            if not any(isinstance(s, ast.Return) and isinstance(s.value, ast.Constant) and s.value.value is False for s in i.body):
-                continue
-            if not isinstance(i.test, ast.BoolOp) or not isinstance(i.test.op, ast.And):
-                continue
-            for t in i.test.values:
-                for x in ast.walk(t):
-                    if isinstance(x, ast.Attribute) and isinstance(x.value, ast.Name) and x.value.id == p0:
-                        fields.setdefault(x.attr, t)
+        for k in sorted(set(mentioned) - required):
+            env = {x: (x in required or x == k) for x in mentioned}
+            if _answers(body, p0, env) == {True}:
+                fields[k] = mentioned[k]
         for fld, t in sorted(fields.items()):
             n += 1
             # how the writer stores it
